@@ -12,7 +12,7 @@ import (
 )
 
 // parserFuncs are the functions the control-flow models Scan / SdlCF / ExeCF were written against.
-var parserFiles = []string{"parser.go", "sdlparser.go", "exeparser.go"}
+var parserFiles = []string{"parser.go", "sdlparser.go", "exeparser.go", "executable.go", "fragment.go", "fragref.go", "inline.go", "op.go", "vardef.go", "field.go"}
 
 // skeleton prints a function with comments dropped and string literals emptied (messages are not control
 // flow) and hashes it: the models are pinned to these hashes, so any edit of a scanner function breaks
